@@ -67,7 +67,7 @@ func genScenario(seed int64, profile string, allow map[string]bool) *Scenario {
 	if sc.Rule == "short_deck" {
 		sc.Blind = []int64{1, 1, 2, 0, 0}
 	}
-	if sc.Rule != "short_deck" && r.Intn(20) == 0 {
+	if sc.Rule != "short_deck" && (r.Intn(20) == 0 || (sc.Mode == "mtt" && r.Intn(5) == 0)) {
 		sc.Blind = []int64{-1, 0, 0, 0, 0} // created during a break (with or without initial players): starts paused
 	}
 	np := 2 + r.Intn(min(sc.N-1, 5))
